@@ -23,10 +23,14 @@ struct Section
 {
     uint64_t first, count;
 };
-static Section secA, secB, secC, secD;
+static Section secA, secB, secC, secD, secE;
 static std::vector<gb::Mode> gModes;
 static std::vector<Msg> gBases;
-static uint64_t gSuffixes, gBlocksA;
+struct ALayout
+{
+    uint64_t first, suffixes, blocks;
+};
+static std::vector<ALayout> gAL;
 static const uint64_t kBlock = 512;
 
 struct Tally
@@ -101,11 +105,14 @@ static void run_any(bool response, const std::string& bytes, const std::vector<s
 // ---- section A ------------------------------------------------------------------------------------
 static void caseA(uint64_t i, vr::Ctx& ctx)
 {
-    const gb::Mode& m = gModes[i / gBlocksA];
-    uint64_t blk      = i % gBlocksA;
-    for (uint64_t s = blk * kBlock; s < (blk + 1) * kBlock && s < gSuffixes; ++s)
+    size_t mi = 0;
+    while (mi + 1 < gAL.size() && gAL[mi + 1].first <= i)
+        ++mi;
+    const gb::Mode& m = gModes[mi];
+    uint64_t blk      = i - gAL[mi].first;
+    for (uint64_t s = blk * kBlock; s < (blk + 1) * kBlock && s < gAL[mi].suffixes; ++s)
     {
-        auto v = gb::nth<char>(s, gb::kSigma, gb::kNSigma, L);
+        auto v = gb::nth<char>(s, m.alpha.data(), m.alpha.size(), L);
         std::string suf(v.begin(), v.end());
         std::string in = m.prefix + suf;
         run_any(m.response, in, { m.prefix.size() }, ctx, m.name);
@@ -349,6 +356,78 @@ static void caseD(uint64_t i, vr::Ctx& ctx)
     }
 }
 
+// ---- section E ------------------------------------------------------------------------------------
+// a body that keeps arriving in pieces: head + pieces until 3 x the size limit has been delivered. The parser must refuse
+// the message by the time more than the limit has been delivered, and what it holds (receive buffer + body copied so
+// far) must stay within 2 x limit.
+static const size_t kPieces[] = { 1, 7, 64, 512, 1000, 4000 };
+static const int kNPieces    = sizeof kPieces / sizeof kPieces[0];
+static const int kNFramings  = 4; // Content-Length (request), chunked (request), Content-Length (response), chunked (response)
+template <typename P>
+static void stream_case(int framing, size_t piece, size_t headPad, vr::Ctx& ctx)
+{
+    bool chunked = framing & 1;
+    std::string head = std::is_same<P, Http::ResponseParser>::value ? "HTTP/1.1 200 OK\r\n" : "POST /s HTTP/1.1\r\n";
+    if (headPad)
+        head += "X-Pad: " + std::string(headPad, 'p') + "\r\n";
+    head += chunked ? "Transfer-Encoding: chunked\r\n\r\n" : "Content-Length: 1000000\r\n\r\n";
+    std::string what = std::string("stream ") + (std::is_same<P, Http::ResponseParser>::value ? "response " : "request ") + (chunked ? "chunked" : "content-length") + " piece=" + std::to_string(piece) + " head=" + std::to_string(head.size());
+    ctx.note(what);
+    mw::Window win(kAllocBound);
+    P p(kMaxSize);
+    size_t delivered = 0, retainedMax = 0, steps = 0;
+    Outcome o = step(p, head.data(), head.size());
+    delivered += head.size();
+    bool refused = o.kind == ERROR;
+    size_t deliveredAtRefusal = refused ? delivered : 0;
+    while (!refused && delivered < 3 * kMaxSize)
+    {
+        std::string data(piece, 'd');
+        std::string wire = chunked ? ([&] { char b[32]; snprintf(b, sizeof b, "%zx\r\n", piece); return std::string(b) + data + "\r\n"; })() : data;
+        o = step(p, wire.data(), wire.size());
+        ++steps;
+        delivered += wire.size();
+        size_t body = 0;
+        if constexpr (std::is_same<P, Http::ResponseParser>::value)
+            body = p.response.body().size();
+        else
+            body = p.request.body().size();
+        retainedMax = std::max(retainedMax, p.buffer.bytes.size() + body);
+        if (o.kind != AGAIN)
+        {
+            refused            = o.kind == ERROR;
+            deliveredAtRefusal = delivered;
+            break;
+        }
+    }
+    ctx.count("transitions", steps + 1);
+    ctx.count("inputs", 1);
+    ctx.state(vr::hash_str(canon_state(p, false), refused));
+    std::string d = "{\"input\":" + vr::jstr(what) + ",\"limit\":" + std::to_string(kMaxSize) + ",\"delivered\":" + std::to_string(delivered) + ",\"refused_after\":" + std::to_string(deliveredAtRefusal) + ",\"retained_max\":" + std::to_string(retainedMax) + ",\"last\":" + vr::jstr(o.str()) + "}";
+    if (!refused)
+        ctx.violation("c03:stream:never-refused-beyond-the-size-limit:" + std::string(chunked ? "chunked" : "content-length"), d);
+    else if (deliveredAtRefusal > kMaxSize + (chunked ? piece + 16 : piece) + 1)
+        ctx.violation("c03:stream:accepted-beyond-the-size-limit:" + std::string(chunked ? "chunked" : "content-length"), d);
+    if (retainedMax > 2 * kMaxSize + 64)
+        ctx.violation("c03:stream:retains-more-than-the-size-limit:" + std::string(chunked ? "chunked" : "content-length"), d);
+    if (win.largest() > kAllocBound || win.peak() > (int64_t)kAllocBound)
+        ctx.violation("c03:memory:stream:" + vr::strip_args(win.site()), d);
+    ctx.outcome(std::string("stream ") + (refused ? "refused " + o.str() : "not refused"));
+    ctx.nontrivial(vr::hash_str(what, 29));
+    ctx.poll_reports();
+}
+static const size_t kHeadPads[] = { 0, 100, 2000, 3900 };
+static void caseE(uint64_t i, vr::Ctx& ctx)
+{
+    int framing   = int(i % kNFramings);
+    size_t piece  = kPieces[(i / kNFramings) % kNPieces];
+    size_t pad    = kHeadPads[i / kNFramings / kNPieces];
+    if (framing < 2)
+        stream_case<Http::RequestParser>(framing, piece, pad, ctx);
+    else
+        stream_case<Http::ResponseParser>(framing, piece, pad, ctx);
+}
+
 int main(int argc, char** argv)
 {
     vr::Options opt = vr::parse_args(argc, argv);
@@ -357,9 +436,17 @@ int main(int argc, char** argv)
     Dt              = opt.geti("Dt", 3);
     gModes          = gb::modes();
     gBases          = base_messages();
-    gSuffixes       = gb::count_upto(gb::kNSigma, L);
-    gBlocksA        = (gSuffixes + kBlock - 1) / kBlock;
-    secA            = { 0, gModes.size() * gBlocksA };
+    uint64_t atA    = 0;
+    for (auto& m : gModes)
+    {
+        ALayout a;
+        a.first    = atA;
+        a.suffixes = gb::count_upto(m.alpha.size(), L);
+        a.blocks   = (a.suffixes + kBlock - 1) / kBlock;
+        atA += a.blocks;
+        gAL.push_back(a);
+    }
+    secA            = { 0, atA };
     uint64_t nb     = 0;
     for (auto& b : gBases)
         nb += b.bytes.size();
@@ -369,7 +456,8 @@ int main(int argc, char** argv)
     secC = { secB.first + secB.count, (uint64_t)kNFields * kNNums };
     init_headers();
     secD.first     = secC.first + secC.count;
-    uint64_t total = secD.first + secD.count;
+    secE           = { secD.first + secD.count, (uint64_t)kNFramings * kNPieces * (sizeof kHeadPads / sizeof kHeadPads[0]) };
+    uint64_t total = secE.first + secE.count;
     return vr::run(opt, total, [](uint64_t idx, vr::Ctx& ctx) {
         ctx.count("executions", 1);
         if (idx < secB.first)
@@ -378,8 +466,10 @@ int main(int argc, char** argv)
             caseB(idx - secB.first, ctx);
         else if (idx < secD.first)
             caseC(idx - secC.first, ctx);
-        else
+        else if (idx < secE.first)
             caseD(idx - secD.first, ctx);
+        else
+            caseE(idx - secE.first, ctx);
         if (idx % 211 == 0)
             ctx.sample("{\"case\":" + std::to_string(idx) + ",\"last_input\":" + vr::jstr(ctx.shm->slots[ctx.worker].note) + "}");
     });
